@@ -36,6 +36,10 @@ use crate::{
 };
 
 use futures::{future::BoxFuture, StreamExt};
+// Verification hook: every `std::time::Instant::now()` of this file reads the store clock of the
+// C17 adapter (the real clock unless the adapter pinned a logical one).
+#[cfg(litep2p_verif)]
+use crate::verif::clock_std as std;
 use std::{
     collections::{hash_map::Entry, HashMap},
     time::Duration,
